@@ -10,6 +10,10 @@ import Driver.Suites.PW
 import Driver.Suites.Blocklist
 import Driver.Suites.AddrList
 import Driver.Suites.Admission
+import Driver.Suites.Tier
+import Driver.Suites.Trkwire
+import Driver.Suites.Announcer
+import Driver.Suites.Replies
 /-! Table of suites known to the driver.  One line per suite (merge=union friendly). -/
 namespace Driver
 def registry : List Suite := [
@@ -29,5 +33,9 @@ def registry : List Suite := [
   Suites.Blocklist.suite,
   Suites.AddrList.suite,
   Suites.Admission.suite,
+  Suites.Tier.suite,
+  Suites.Trkwire.suite,
+  Suites.Announcer.suite,
+  Suites.Replies.suite,
 ]
 end Driver
